@@ -208,7 +208,7 @@ func (p *provider) Close() error {
 
 	for _, s := range scopes {
 		if s != nil {
-			if err := s.Close(); err != nil {
+			if _, err := s.dispose(); err != nil {
 				errors = append(errors, fmt.Errorf("scope %s: %w", s.ID(), err))
 			}
 		}
@@ -218,7 +218,7 @@ func (p *provider) Close() error {
 	if p.rootScope != nil {
 		// The pointer is kept: operations that passed the disposed check
 		// concurrently find a closed scope instead of a nil one.
-		if err := p.rootScope.Close(); err != nil {
+		if _, err := p.rootScope.dispose(); err != nil {
 			errors = append(errors, fmt.Errorf("root scope: %w", err))
 		}
 	}
